@@ -10,6 +10,8 @@ from .report import VERIF
 
 RULES = {
     'R1': ('r01_iter', 'ITER: no structural removal from a container while a for walks it'),
+    'R2': ('r02_pair', 'PAIR/DETACH: mirrored relations move together; removal cleans referrers'),
+    'R3': ('r03_index', 'INDEX/RESET: derived state follows the primary container'),
 }
 
 
@@ -95,11 +97,12 @@ COMMON_ASSUMPTIONS = [
 PROPS: dict[str, dict] = {}
 
 
-def _p(pid, title, rules, decided, undecided, anchors=(), floor=1, extra_assumptions=()):
+def _p(pid, title, rules, decided, undecided, anchors=(), floor=1, extra_assumptions=(), also=()):
     PROPS[pid] = {
         'title': title,
         'rules': list(rules),
         'anchors': list(anchors),
+        'also': list(also),
         'floor': floor,
         'decided': list(decided),
         'undecided': list(undecided),
@@ -112,36 +115,79 @@ def _p(pid, title, rules, decided, undecided, anchors=(), floor=1, extra_assumpt
     }
 
 
-_p('C13', 'Pruning removes exactly the non-viable or unnecessary attack steps',
-   ['R1'],
-   decided=['R1: the pruning loop does not remove from the node list it walks (every prunable '
-            'node is visited)'],
-   undecided=['that remove_node leaves a C09-consistent graph for every graph shape'],
-   anchors=[('R1', 'prune_unviable_and_unnecessary_nodes')])
-
-_p('C11', 'Attackers and nodes always agree on what is compromised',
-   ['R1'],
-   decided=['R1: remove_attacker does not shrink the reached list while walking it'],
-   undecided=['pjs/name lookups'],
-   anchors=[('R1', 'AttackGraph.remove_attacker')])
-
-_p('C09', 'Attack-graph structure and lookup indexes stay consistent in any history',
-   ['R1'],
-   decided=['R1: no loop of the attack-graph layer removes from the list it walks'],
-   undecided=['whole-history equivalence regenerated = fresh'],
-   anchors=[('R1', 'AttackGraph.remove_node'), ('R1', 'AttackGraph.remove_attacker')])
-
 _p('C01', 'Attack-graph edges are exactly the MAL meaning of the step expressions',
-   ['R1'],
-   decided=['R1: the set operators do not remove from the list they iterate'],
-   undecided=['MAL set semantics over all nestings'],
-   anchors=[('R1', '_process_step_expression')])
+   ['R1', 'R2'],
+   decided=['R1: the evaluator never removes from a list it iterates (set operators, sub-type '
+            'filter, recursion through callee summaries)',
+            'R2: every child link created by generation is mirrored by the converse parent link on '
+            'the same two nodes'],
+   undecided=['that the evaluator implements MAL set semantics for every nesting',
+              'variable resolution by the first target type', 'transitive start-asset convention'],
+   anchors=[('R1', '_process_step_expression'), ('R2', 'AttackGraph._generate_graph')])
+
+_p('C02', 'One node per asset x step, with attributes faithful to model and language',
+   ['R3'],
+   decided=['R3: every node entering the node list is registered in both lookup indexes and '
+            'advances the id counter (and symmetrically on removal)'],
+   undecided=['value-level equality of node attributes', 'pjs default/validation behaviour'],
+   anchors=[('R3', 'AttackGraph.add_node')])
 
 _p('C05', 'The instance model stays coherent under any history of edits',
-   ['R1'],
-   decided=['R1: no Model mutator removes from a list it walks'],
-   undecided=['equality with an abstract reference model for whole histories'],
-   anchors=[('R1', 'Model.remove_asset')])
+   ['R1', 'R2', 'R3'],
+   decided=['R1: no Model mutator removes from a list it walks',
+            'R2: association-field membership and asset.associations change together (P5); '
+            'removing an asset/association cleans association fields, entry points, member lists',
+            'R3: assets <-> asset_ids, asset_names and associations <-> _type_to_association move '
+            'together in every mutator'],
+   undecided=['equality with an abstract reference model for whole histories', 'pjs == semantics'],
+   anchors=[('R1', 'Model.remove_asset'), ('R2', 'Model.remove_asset'),
+            ('R2', 'Model.remove_asset_from_association'), ('R2', 'Model.remove_association'),
+            ('R3', 'Model.add_asset'), ('R3', 'Model.remove_asset'),
+            ('R3', 'Model.add_association'), ('R3', 'Model.remove_association')])
+
+_p('C09', 'Attack-graph structure and lookup indexes stay consistent in any history',
+   ['R1', 'R2', 'R3'],
+   decided=['R1: no loop of the attack-graph layer removes from the list it walks',
+            'R2: children/parents and compromised_by/reached_attack_steps are updated pairwise; '
+            'remove_node / remove_attacker clean every referrer (neighbours, attackers, entry points)',
+            'R3: nodes <-> _id_to_node, _full_name_to_node, next_node_id and attackers <-> '
+            '_id_to_attacker, next_attacker_id move together; regenerate_graph re-initialises '
+            'everything __init__ initialises'],
+   undecided=['whole-history equivalence regenerated = fresh beyond RESET = INIT'],
+   anchors=[('R1', 'AttackGraph.remove_node'), ('R1', 'AttackGraph.remove_attacker'),
+            ('R2', 'AttackGraph.remove_node'), ('R2', 'AttackGraph._generate_graph'),
+            ('R2', 'AttackGraph.remove_attacker'),
+            ('R3', 'AttackGraph.add_node'), ('R3', 'AttackGraph.remove_node'),
+            ('R3', 'AttackGraph.add_attacker'), ('R3', 'AttackGraph.remove_attacker'),
+            ('R3', 'AttackGraph.regenerate_graph')])
+
+_p('C11', 'Attackers and nodes always agree on what is compromised',
+   ['R1', 'R2'],
+   decided=['R1: remove_attacker does not shrink the reached list while walking it',
+            'R2: compromise/undo_compromise update node.compromised_by and '
+            'attacker.reached_attack_steps together on the same two objects; remove_attacker '
+            'cleans compromised_by'],
+   undecided=['pjs/name lookups'],
+   anchors=[('R1', 'AttackGraph.remove_attacker'), ('R2', 'Attacker.compromise'),
+            ('R2', 'Attacker.undo_compromise'), ('R2', 'AttackGraph.remove_attacker')])
+
+_p('C13', 'Pruning removes exactly the non-viable or unnecessary attack steps',
+   ['R1', 'R2', 'R3'],
+   decided=['R1: the pruning loop does not remove from the node list it walks (every prunable '
+            'node is visited)',
+            'R2/R3 on remove_node: neighbours, attackers, entry points and both indexes are cleaned'],
+   undecided=['that remove_node leaves a C09-consistent graph for every graph shape'],
+   anchors=[('R1', 'prune_unviable_and_unnecessary_nodes'), ('R2', 'AttackGraph.remove_node'),
+            ('R3', 'AttackGraph.remove_node')],
+   also=[('R2', 'AttackGraph.remove_node'), ('R3', 'AttackGraph.remove_node')])
+
+_p('C15', 'Language graph mirrors the language and over-approximates every attack graph',
+   ['R2', 'R3'],
+   decided=['R2: super_assets/sub_assets and step children/parents are created pairwise (P3, P4)',
+            'R3: LanguageGraph.regenerate_graph re-initialises what __init__ initialises'],
+   undecided=['the over-approximation clause (relates two evaluators)',
+              'static typing of step expressions'],
+   anchors=[('R2', 'LanguageGraph._generate_graph'), ('R3', 'LanguageGraph.regenerate_graph')])
 
 
 # --------------------------------------------------------------------------- manifest
